@@ -73,13 +73,15 @@ MODE_THEOREMS = {
     "futex-defer": [("UrcuVerif.Props.SrcFutex", _sel("defer", "df_"))],
     "futex-wq": [("UrcuVerif.Props.SrcFutex", _sel(".futex_wait", ".futex_wake_up", "wake_worker_thread")), ("UrcuVerif.Props.SrcWq", lambda n: True),
                  ("UrcuVerif.Props.SrcWq2", lambda n: True), ("UrcuVerif.Props.SrcWq3", lambda n: True),
-                 ("UrcuVerif.Props.SrcWq4", lambda n: True), ("UrcuVerif.Props.SrcWq5", lambda n: True)],
+                 ("UrcuVerif.Props.SrcWq4", lambda n: True), ("UrcuVerif.Props.SrcWq5", lambda n: True),
+                 ("UrcuVerif.Props.SrcWq6", lambda n: True)],
     "poll": [("UrcuVerif.Props.SrcPoll", lambda n: True)],
     "reg": [("UrcuVerif.Props.SrcReg", lambda n: True)],
     "fork": [("UrcuVerif.Props.SrcFork", lambda n: True), ("UrcuVerif.Props.SrcFork2", lambda n: True)],
     "lfht": [("UrcuVerif.Props.SrcLfht", lambda n: True), ("UrcuVerif.Props.SrcLfht2", lambda n: True),
              ("UrcuVerif.Props.SrcLfht3", lambda n: True), ("UrcuVerif.Props.SrcLfht4", lambda n: True),
-             ("UrcuVerif.Props.SrcLfht5", lambda n: True), ("UrcuVerif.Props.SrcLfht6", lambda n: True)],
+             ("UrcuVerif.Props.SrcLfht5", lambda n: True), ("UrcuVerif.Props.SrcLfht6", lambda n: True),
+             ("UrcuVerif.Props.SrcLfht7", lambda n: True)],
 }
 
 
@@ -90,7 +92,7 @@ INTEGRATED = {"UrcuVerif.Props.SrcRead", "UrcuVerif.Props.SrcSync", "UrcuVerif.P
               "UrcuVerif.Props.SrcSync2", "UrcuVerif.Props.SrcWq2", "UrcuVerif.Props.SrcReg", "UrcuVerif.Props.SrcFork", "UrcuVerif.Props.SrcLfht2",
               "UrcuVerif.Props.SrcLfht3", "UrcuVerif.Props.SrcTail", "UrcuVerif.Props.SrcWq3", "UrcuVerif.Props.SrcLfht4",
               "UrcuVerif.Props.SrcWq4", "UrcuVerif.Props.SrcLfht5", "UrcuVerif.Props.SrcFork2",
-              "UrcuVerif.Props.SrcWq5", "UrcuVerif.Props.SrcLfht6"}
+              "UrcuVerif.Props.SrcWq5", "UrcuVerif.Props.SrcLfht6", "UrcuVerif.Props.SrcWq6", "UrcuVerif.Props.SrcLfht7"}
 
 
 def mode_theorems(mode):
